@@ -1,12 +1,16 @@
 import HopModel.Driver.C14
 import HopModel.Driver.C20
 import HopModel.Driver.C03
+import HopModel.Driver.C01
+import HopModel.Driver.C02
 
 def main (args : List String) : IO UInt32 := do
   match args with
   | "C14" :: rest => Driver.C14.main rest; return 0
   | "C20" :: rest => Driver.C20.main rest; return 0
   | "C03" :: rest => Driver.C03.main rest; return 0
+  | "C01" :: rest => Driver.C01.main rest; return 0
+  | "C02" :: rest => Driver.C02.main rest; return 0
   | _ =>
     IO.eprintln "usage: hopmodel <Cxx> [--spec] < ops.txt > model.txt"
     return 2
